@@ -24,6 +24,23 @@ HISTORY = {
               "typed kinds z (0) and bf (False) added to the typed-row universe"),
     "C13-B": ("C13", "HTML table with unclosed <col> elements followed by another table", "missed",
               "the HTML writer renders even-row tables HTML5-style (colgroup/col, thead/tbody, th)"),
+    "C05-A": ("C05", "a BytesIO payload not at offset 0 when to_json() runs (stream read before serialising)", "missed",
+              "Serial.tla BytesIO values carry a stream position; instances and fixture results are round-tripped with streams at start / mid / end"),
+    "C05-B": ("C05", "--json-unit without --binary on an input yielding >= 2 results whose units carry image payloads", "missed",
+              "multi-result archives with binary payloads added to the CLI part; per-item binary-exclusion law (CliItem) decided by TLC"),
+    "C08-A": ("C08", "XLS workbook with a zero-length record (WriteProtect) before FILEPASS", "caught", ""),
+    "C08-B": ("C08", "ZIP whose only encrypted members are ones the extractor skips (dotfile, unsupported type, nested zip)", "caught", ""),
+    "C11-A": ("C11", "per-entry compression ratio strictly between the limit and limit + 1", "caught", ""),
+    "C11-B": ("C11", "ODF encryption probe opening the container without the bomb guard (read before validate)", "caught", ""),
+    "C12-A": ("C12", "ZIP member above the per-member limit that compresses to below it", "caught", ""),
+    "C12-B": ("C12", "XML part with a DOCTYPE declaring nested internal entities (defusedxml replaced by the stdlib parser)", "caught", ""),
+    "C16-A": ("C16", "mbox recipient whose RFC 2047-encoded display name contains a comma once decoded", "caught", ""),
+    "C16-B": ("C16", ".eml Subject folded with a TAB continuation", "caught", ""),
+    "C17-A": ("C17", "a removable element nested in an element of the same name, followed by more content of the outer one", "missed",
+              "quick tier gained alphabet AlphaQ4 (object / noscript nesting, length <= 5) and the deviation FirstEndTagCloses"),
+    "C17-B": ("C17", "a bare void <embed> not inside <object>", "caught", ""),
+    "C20-A": ("C20", "a 192-bit key (extra SubWord step applied for Nk = 6)", "caught", ""),
+    "C20-B": ("C20", "stream-wrapper encryption of a block-aligned message (padding block dropped)", "caught", ""),
 }
 
 
